@@ -36,7 +36,7 @@ class ServerLog:
             self.handled += 1
 
 
-def make_env(P, servertype):
+def make_env(P, servertype, variant=None):
     slog = ServerLog()
 
     @P.server.expose
@@ -67,7 +67,7 @@ def make_env(P, servertype):
         def stream(self, token, n):
             slog.hit(token)
             return ((token, i) for i in range(n))
-    fx = fixture.Fixture(servertype=servertype, COMMTIMEOUT=0.0, ITER_STREAMING=True, THREADPOOL_SIZE=30)
+    fx = fixture.Fixture(servertype=servertype, COMMTIMEOUT=0.0, ITER_STREAMING=True, THREADPOOL_SIZE=30, variant=variant)
     fx.register(Svc(), "svc")
     return fx, slog
 
@@ -324,7 +324,8 @@ def plan(tier, seed):
 def run_shard(shard, rec):
     P = fixture.pyro()
     r = gen.rng(rec.seed, "c03", repr(sorted(shard.items())))
-    fx, slog = make_env(P, shard["servertype"])
+    fx, slog = make_env(P, shard["servertype"], fixture.variant_for(rec.seed, "c03", repr(sorted(shard.items()))))
+    rec.count("fixture_variant:" + fx.variant)
     rl = relay.Relay(fx.location)
     try:
         for h in range(shard["histories"]):
